@@ -121,7 +121,7 @@ impl Property for C07 {
     }
     fn runs(&self, tier: &str) -> u64 {
         if tier == "thorough" {
-            250_000
+            150_000
         } else {
             5_000
         }
